@@ -109,7 +109,7 @@ SetBefore(s, y, x) == y.born > x.born \/ (y.born = x.born /\ SetIdx(s, y) > SetI
 
 SettingVerdict(s, x) ==
     IF x.ref = "" THEN <<"error", "missing">>
-    ELSE IF x.sel = "" THEN <<"error", "conflict">>
+    ELSE IF x.sel = "" THEN <<"error", "selector">>     \* its own unusable selector, whatever the nodes (after the fix: checked before the search)
     ELSE IF \E n \in NodeNames(s) : \E y \in SeqToSet(s.settings) :
               y # x /\ y.ns = x.ns /\ SetMatches(s, y, n) /\ SetMatches(s, x, n) /\ SetBefore(s, y, x)
          THEN <<"error", "conflict">>
